@@ -329,6 +329,52 @@ theorem C11_empty_type_list (cfg : Cfg) :
   simp [buildTree, buildWith, loop1, loop2, loop2By, finish, allNamespaces, allDatatypes, nsGen, typeGen,
     depthFuel, maxLen, mkNode, nestedOf, typesOf, parentOf, pathOf, findNode]
 
+/-! ## 6. support files -/
+
+/-- `get_support_output_folder()` of **every** namespace of **every** tree — any type list (the empty
+one included, where the tree is `Namespace("")`), any walk order — is the base output path
+`PurePath(output_dir)`.  (It is stored, not derived: for the empty root namespace the namespace's own
+folder *is* the output directory, so "parent of the root's folder" would be the directory above.) -/
+theorem C11_support_folder_is_outdir (cfg : Cfg) (ts : List Ty) (ks : List Key) (k : Key) :
+    baseOf cfg (buildWith cfg ts ks).store k = basePath cfg := by
+  unfold buildWith
+  exact baseOf_finish cfg _ (fun k => by unfold loop2; exact baseOf_loops sameNs cfg ts ks k) k
+
+/-- Every support file goes to `outDir / support-namespace parts / (resource stem ++ ext)` — inside the
+output directory, for every tree including the empty one (`--generate-support only`).  Hypotheses:
+the parts of `support_namespace` and the resource's stem are identifier-shaped, the resource name is
+`stem.suffix` with one proper suffix (`serialization.j2`, `nunavut_support.j2`, …). -/
+theorem C11_support_file_inside_outdir (cfg : Cfg) (ts : List Ty) (ks : List Key) (subs : List Str)
+    (stem suf : Str) (hsubs : ∀ s ∈ subs, IdSeg s) (hstem : IdSeg stem) (hsuf : suf ≠ [])
+    (hsufd : '.' ∉ suf) (hsufs : '/' ∉ suf) (hext : ValidExt cfg.ext) :
+    supportTarget cfg (buildWith cfg ts ks) subs (stem ++ '.' :: suf) =
+      .ok (basePath cfg ++ (subs ++ [stem ++ cfg.ext])) ∧
+    Inside (basePath cfg) (basePath cfg ++ (subs ++ [stem ++ cfg.ext])) := by
+  have hname1 : stem ++ '.' :: suf ≠ [] := by simp
+  have hname2 : '/' ∉ stem ++ '.' :: suf := by
+    simp only [List.mem_append, List.mem_cons, not_or]
+    exact ⟨hstem.2.1, by decide, hsufs⟩
+  have hname3 : stem ++ '.' :: suf ≠ ['.'] := by
+    obtain ⟨h1, _, _⟩ := hstem
+    cases stem with
+    | nil => exact absurd rfl h1
+    | cons c r => intro e; simp at e
+  have hname4 : stem ++ '.' :: suf ≠ rootPart := by
+    intro e; apply hname2; rw [e]; simp [rootPart]
+  refine ⟨?_, subs ++ [stem ++ cfg.ext], rfl, by simp, ?_⟩
+  · unfold supportTarget
+    rw [C11_support_folder_is_outdir, subFolders_idsegs subs hsubs, pathJoin_rel, pjoin_oneseg _ _ hname1 hname2 hname3,
+      withSuffix_last _ _ _ hname4 hext, stemOf_dotted stem suf hstem.1 hsuf hsufd, List.append_assoc]
+    cases subs with
+    | nil => simp
+    | cons a r =>
+      simp only [List.head?_cons]
+      exact fun e => idseg_ne_root (hsubs a (by simp)) (Option.some.inj e)
+  · intro s hs
+    rcases List.mem_append.1 hs with hs | hs
+    · exact idseg_safe (hsubs s hs)
+    · rw [List.mem_singleton.1 hs]; exact file_safe hstem hext
+
 /-! ## Non-vacuity and regression witnesses -/
 
 section Examples
@@ -373,6 +419,11 @@ off for a language whose `filter_id` is not the identity the namespace file leav
 example : outputPath { cfgC with enable := false } tA = .ok [s "out", s "vendor", s "register", s "A_1_0.h"] ∧
     nsOutputPath { cfgC with enable := false } tA.ns = .ok [s "out", s "vendor", s "_register", s "_.h"] := by
   decide
+/-- Support files of an empty tree (`--generate-support only`): inside `out/`; deriving the folder from
+the root namespace's own folder instead (its parent) would leave the output directory. -/
+example : supportTarget cfgC (buildTree cfgC []) [s "nunavut", s "support"] (s "serialization.j2")
+    = .ok [s "out", s "nunavut", s "support", s "serialization.h"] := by decide
+example : parentPath (nsFolder cfgC (buildTree cfgC []).root) = [] ∧ basePath cfgC = [s "out"] := by decide
 end Examples
 
 end NunavutVerif.Namespace
